@@ -271,6 +271,9 @@ def maximum_cardinality_matching_bipartite(G: Dict[int, List[int]], X: list, Y: 
 
   matchings = []
   for x in X:
+    if len(G[x]) == 0:
+      # An isolated vertex cannot be matched.
+      continue
     matched_y = G[x][np.argmax(np.array([flow[(x, y)] for y in G[x]]))]
     if (flow[x, matched_y] == 1):
       matchings.append((x, matched_y))
